@@ -86,7 +86,7 @@ class _FallbackFor(_DependsOn[A, B]):
     def _present(self, options: Options) -> Set[str]:
         try:
             explained = self.depends.explain(options)
-        except EvaluationError:
+        except Exception:  # explain is best effort here
             return set()
         return {key for key in explained if dotted_key_exists(key, options)}
 
